@@ -26,8 +26,17 @@ def rand_value(rng, allow_nan=True):
     return rng.choice(TEXT_POOL)
 
 
+def no_period(it):
+    """A blank mnemonic can only be carried by a header line without any further period (C13/C03 domain clause)."""
+    if str(it[0]).strip() == "":
+        it[1] = str(it[1]).replace(".", "")
+        it[2] = it[2] if not isinstance(it[2], (str, float)) else (str(it[2]).replace(".", ",") if isinstance(it[2], str) else int(it[2]))
+        it[3] = str(it[3]).replace(".", ",")
+    return it
+
+
 def rand_item(rng, names=NAME_POOL):
-    return [rng.choice(names), rng.choice(UNIT_POOL), rand_value(rng, allow_nan=False), rng.choice(TEXT_POOL)]
+    return no_period([rng.choice(names), rng.choice(UNIT_POOL), rand_value(rng, allow_nan=False), rng.choice(TEXT_POOL)])
 
 
 def rand_spec(rng, text_curve=0.2, max_curves=6, max_rows=6, dup=True, custom=0.2, min_curves=1):
@@ -44,7 +53,7 @@ def rand_spec(rng, text_curve=0.2, max_curves=6, max_rows=6, dup=True, custom=0.
         else:
             data = [None if rng.random() < 0.15 else round(rng.uniform(-500, 3000), rng.choice([0, 2, 4])) for _ in range(nrows)]
         nm = rng.choice(pool) if dup else pool[j % len(pool)]
-        curves.append([nm, rng.choice(UNIT_POOL), rng.choice(["", "", "45 310 01 00", 7, 45.5]), rng.choice(TEXT_POOL), data])
+        curves.append(no_period([nm, rng.choice(UNIT_POOL), rng.choice(["", "", "45 310 01 00", 7, 45.5]), rng.choice(TEXT_POOL)]) + [data])
     spec = {
         "well": [rand_item(rng, names) for _ in range(rng.randint(0, 4))],
         "params": [rand_item(rng, names) for _ in range(rng.randint(0, 5))],
